@@ -4,6 +4,7 @@ import Driver.Box
 import Driver.Stream
 import Driver.Curve
 import Driver.Pwhash
+import Driver.Rand
 /-
 Line-protocol driver.  One request per line:  `<id> <op> <arg>…` (byte strings
 in hex, `-` = empty).  One answer per line: `<id>\t<model answer>\t<spec answer>`
@@ -25,6 +26,9 @@ def handle (op : String) (args : List String) : Ans :=
   | some a => a
   | none =>
   match Pwhash.handle op args with
+  | some a => a
+  | none =>
+  match Rand.handle op args with
   | some a => a
   | none => ("bad-op", "bad-op")
 
